@@ -234,7 +234,17 @@ def run_property(pid, tier, only=None, jobs=None, write_evidence=True, cube_filt
 
   # 2. schedule cubes -------------------------------------------------------------------
   ctx = multiprocessing.get_context('fork')
-  pool = ctx.Pool(jobs, maxtasksperchild=1)
+  pool = ctx.Pool(jobs, maxtasksperchild=1, initializer=worker.die_with_parent)
+
+  def _on_term(signum, frame):
+    # an external time limit ends the check: never leave workers behind
+    try:
+      pool.terminate()
+    finally:
+      os._exit(143)  # pylint: disable=protected-access
+  import signal as _signal
+  _signal.signal(_signal.SIGTERM, _on_term)
+  _signal.signal(_signal.SIGINT, _on_term)
   pending = []
   per_ob = {ob.name: dict(ob=ob, cubes=[], direct=None) for ob in obligations}
 
